@@ -510,7 +510,7 @@ def one_edit(item, li, edit, side, res):
   clone = orig.clone()
   target, other = (clone, orig) if side == "clone" else (orig, clone)
   before_other = line_obs(other)
-  before_target = line_obs(target)
+  before_target = safe_str(target)
   gtext = safe_str(g) if (g is not None and side == "clone") else None
   try:
     apply_edit(target, edit)
@@ -523,7 +523,7 @@ def one_edit(item, li, edit, side, res):
   res["transitions"] += 1
   res["traces"] += 1
   after_other = line_obs(other)
-  changed = line_obs(target) != before_target
+  changed = safe_str(target) != before_target
   res["outcomes"].add("edit:{}:{}:{}".format(
       edit[3], outcome, "effective" if changed else "no-effect"))
   if changed:
